@@ -426,4 +426,71 @@ theorem runOps_draws : ∀ (ds : List Frame) (b : Buffers), runOps b (ds.map ROp
   | [], _ => rfl
   | fr :: ds, b => by simpa [runOps] using runOps_draws ds _
 
+/-! ### what is on the axes -/
+
+/-- every obstacle patch collection on the axes is registered in `dynamic_artists` -/
+def Rend.Reg (s : Rend) : Prop := ∀ c ∈ s.axes, s.registered c.1 = true
+
+theorem runAxes_append : ∀ (o1 o2 : List AOp) (s : Rend),
+    runAxes s (o1 ++ o2) = runAxes s o1 ++ runAxes (o1.foldl stepA s) o2
+  | [], _, _ => rfl
+  | op :: r, o2, s => by
+    simp only [List.cons_append, runAxes, List.foldl_cons]
+    split <;> simp [runAxes_append r o2]
+
+theorem runAxes_draws : ∀ (ds : List Frame) (s : Rend), runAxes s (ds.map AOp.draw) = []
+  | [], _ => rfl
+  | fr :: ds, s => by simpa [runAxes, AOp.shows] using runAxes_draws ds _
+
+theorem foldl_draws : ∀ (ds : List Frame) (s : Rend),
+    ((ds.map AOp.draw).foldl stepA s).axes = s.axes ∧ ((ds.map AOp.draw).foldl stepA s).dyn = s.dyn ∧
+    ((ds.map AOp.draw).foldl stepA s).next = s.next ∧
+    ((ds.map AOp.draw).foldl stepA s).buf.patches =
+      s.buf.patches ++ ds.flatMap (fun fr => drawScenario fr.flags fr.obstacles)
+  | [], s => by simp
+  | fr :: ds, s => by
+    obtain ⟨h1, h2, h3, h4⟩ := foldl_draws ds (stepA s (.draw fr))
+    simp only [List.map_cons, List.foldl_cons]
+    refine ⟨h1, h2, h3, ?_⟩
+    rw [h4]; simp [stepA, Frame.draw, List.append_assoc]
+
+theorem removeDynamic_axes_of_reg (s : Rend) (h : s.Reg) : s.removeDynamic.axes = [] := by
+  simp only [Rend.removeDynamic, List.filter_eq_nil_iff]
+  intro c hc
+  simp [h c hc]
+
+/-- One `update(frame)` of `create_video` on a renderer on whose axes every obstacle patch collection is registered:
+    afterwards the axes hold exactly one obstacle patch collection, the one of this frame's draws, and it is registered. -/
+theorem videoFrame_spec (ds : List Frame) (s : Rend) (h : s.Reg) :
+    runAxes s (videoFrame ds) = [[(s.next, ds.flatMap (fun fr => drawScenario fr.flags fr.obstacles))]] ∧
+    ((videoFrame ds).foldl stepA s).Reg := by
+  have hax := removeDynamic_axes_of_reg s h
+  obtain ⟨d1, d2, d3, d4⟩ := foldl_draws ds ((s.removeDynamic).clear false)
+  have e1 : ((s.removeDynamic).clear false).axes = [] := by simpa [Rend.clear] using hax
+  have e2 : ((s.removeDynamic).clear false).dyn = [] := rfl
+  have e3 : ((s.removeDynamic).clear false).next = s.next := rfl
+  have e4 : ((s.removeDynamic).clear false).buf.patches = [] := rfl
+  rw [e1] at d1; rw [e2] at d2; rw [e3] at d3; rw [e4, List.nil_append] at d4
+  constructor
+  · simp only [videoFrame, List.append_assoc, List.cons_append, List.nil_append, runAxes, AOp.shows, stepA,
+      Bool.false_eq_true, if_false]
+    rw [runAxes_append, runAxes_draws, List.nil_append]
+    simp only [runAxes, AOp.shows, if_true, stepA, Rend.renderDynamic, d1, d2, d3, d4, List.foldl_nil, List.nil_append]
+  · intro c hc
+    simp only [videoFrame, List.append_assoc, List.cons_append, List.nil_append, List.foldl_cons, List.foldl_append,
+      List.foldl_nil, stepA, Rend.renderDynamic, d1, d2, d3, d4] at hc ⊢
+    simp only [List.mem_singleton] at hc
+    subst hc
+    simp [Rend.registered]
+
+theorem runAxes_videoFrames : ∀ (frames : List (List Frame)) (s : Rend), s.Reg →
+    (runAxes s (frames.flatMap videoFrame)).map (fun ax => ax.map (·.2)) =
+      frames.map (fun ds => [ds.flatMap (fun fr => drawScenario fr.flags fr.obstacles)])
+  | [], _, _ => rfl
+  | ds :: rest, s, h => by
+    obtain ⟨h1, h2⟩ := videoFrame_spec ds s h
+    rw [List.flatMap_cons, runAxes_append, h1]
+    simp only [List.map_cons, List.cons_append, List.nil_append, List.map_nil, List.cons.injEq, true_and]
+    exact runAxes_videoFrames rest _ h2
+
 end CR.Draw
